@@ -95,14 +95,17 @@ Record universe := {
 (** [issubclass(t, c)] as [ABCMeta.__subclasscheck__] computes it: [c] in the MRO of [t], or
     [t] a subclass of a class registered with [c], or of a (direct) subclass of [c] *)
 Fixpoint issub (U : universe) (fuel t c : nat) : bool :=
-  anc (u_F U) c t ||
-  match fuel with
-  | 0 => false
-  | S k =>
-    existsb (fun p => Nat.eqb (fst p) c && issub U k t (snd p)) (u_reg U) ||
-    existsb (fun s => negb (Nat.eqb s 0) && Nat.eqb (par (u_F U) s) c && issub U k t s)
-            (seq 0 (u_n U))
-  end.
+  (* [if]s, not [||] / [&&]: only the matching entries are followed when this is evaluated *)
+  if anc (u_F U) c t then true
+  else match fuel with
+       | 0 => false
+       | S k =>
+         if existsb (fun p => if Nat.eqb (fst p) c then issub U k t (snd p) else false) (u_reg U)
+         then true
+         else existsb (fun s => if negb (Nat.eqb s 0) && Nat.eqb (par (u_F U) s) c
+                                then issub U k t s else false)
+                      (seq 0 (u_n U))
+       end.
 
 Definition issubclass (U : universe) (t c : nat) : bool := issub U (S (u_n U + length (u_reg U))) t c.
 
